@@ -9,19 +9,23 @@ open Mistral Mistral.Lifecycle
     execution, the accepted flag -/
 def J (e : Exec) : Prop :=
   (isCompleted e.state = false → e.sent = 0) ∧
-  (e.state = .ERROR ∨ e.state = .CANCELLED → e.sent = (if e.parent.isSome then 1 else 0)) ∧
-  (e.state = .SUCCESS → e.out = .data ∧ (e.parent.isSome = true → 1 ≤ e.sent)) ∧
-  (isCompleted e.state = true → e.accepted = true)
+  (isCompleted e.state = true → e.sent = (if e.parent.isSome then 1 else 0)) ∧
+  (e.state = .RUNNING ∨ e.state = .PAUSED ∨ isCompleted e.state = true)
 
-def AllJ (w : World) : Prop := ∀ (i : Nat) (e : Exec), w.execs[i]? = some e → J e
+/-- the links are well formed: a parent task exists, the owner of a task exists -/
+def WF (w : World) : Prop :=
+  (∀ (x : Nat) (e : Exec) (t : Nat), w.execs[x]? = some e → e.parent = some t → t < w.tasks.length) ∧
+  (∀ (t : Nat) (tk : Task), w.tasks[t]? = some tk → tk.wf < w.execs.length) ∧
+  (∀ (x : Nat) (e : Exec) (t : Nat) (tk : Task), w.execs[x]? = some e → e.parent = some t →
+     w.tasks[t]? = some tk → tk.wf < x)
+
+def AllJ (w : World) : Prop := (∀ (i : Nat) (e : Exec), w.execs[i]? = some e → J e) ∧ WF w
 
 /-- what may happen to an existing execution row in one transaction -/
 def Frozen (e e' : Exec) : Prop :=
   e'.parent = e.parent ∧ e'.defn = e.defn ∧ e'.index = e.index ∧ e.sent ≤ e'.sent ∧
   (isCompleted e.state = true →
-     e'.state = e.state ∧
-     (e'.out = e.out ∨ (e.state = .SUCCESS ∧ e'.out = .data)) ∧
-     (e.state ≠ .SUCCESS → e'.sent = e.sent ∧ e'.info = e.info))
+     e'.state = e.state ∧ e'.out = e.out ∧ e'.info = e.info ∧ e'.sent = e.sent)
 
 /-- execution i is new or not completed -/
 def NewOk (w : World) (i : Nat) : Prop := ∀ e : Exec, w.execs[i]? = some e → isCompleted e.state = false
@@ -30,34 +34,42 @@ structure Good (w w' : World) : Prop where
   execs : ∀ (i : Nat) (e : Exec), w.execs[i]? = some e → ∃ e', w'.execs[i]? = some e' ∧ Frozen e e'
   tasks : ∀ (t : Nat) (tk : Task), w.tasks[t]? = some tk → ∃ tk', w'.tasks[t]? = some tk' ∧ tk'.wf = tk.wf ∧ tk'.name = tk.name
   fresh : ∀ (t : Nat) (tk' : Task), w'.tasks[t]? = some tk' → w.tasks[t]? = none → NewOk w tk'.wf
+  freshExec : ∀ (x : Nat) (e' : Exec), w'.execs[x]? = some e' → w.execs[x]? = none →
+    e'.parent = none ∨ ∃ t tk, e'.parent = some t ∧ w'.tasks[t]? = some tk ∧ NewOk w tk.wf
   inv : AllJ w → AllJ w'
 
 theorem Frozen.refl (e : Exec) : Frozen e e :=
-  ⟨rfl, rfl, rfl, Nat.le_refl _, fun _ => ⟨rfl, Or.inl rfl, fun _ => ⟨rfl, rfl⟩⟩⟩
+  ⟨rfl, rfl, rfl, Nat.le_refl _, fun _ => ⟨rfl, rfl, rfl, rfl⟩⟩
 
 theorem Frozen.trans {a b c : Exec} (h1 : Frozen a b) (h2 : Frozen b c) : Frozen a c := by
   obtain ⟨p1, d1, i1, s1, f1⟩ := h1
   obtain ⟨p2, d2, i2, s2, f2⟩ := h2
   refine ⟨p2.trans p1, d2.trans d1, i2.trans i1, Nat.le_trans s1 s2, fun hc => ?_⟩
-  obtain ⟨st1, o1, r1⟩ := f1 hc
-  have hc' : isCompleted b.state = true := by rw [st1]; exact hc
-  obtain ⟨st2, o2, r2⟩ := f2 hc'
-  refine ⟨st2.trans st1, ?_, fun hne => ?_⟩
-  · rcases o2 with o2 | ⟨hs, o2⟩
-    · rcases o1 with o1 | ⟨hs1, o1⟩
-      · exact Or.inl (o2.trans o1)
-      · exact Or.inr ⟨hs1, o2.trans o1⟩
-    · exact Or.inr ⟨by rw [← st1]; exact hs, o2⟩
-  · obtain ⟨a1, a2⟩ := r1 hne
-    obtain ⟨b1, b2⟩ := r2 (by rw [st1]; exact hne)
-    exact ⟨b1.trans a1, b2.trans a2⟩
+  obtain ⟨a1, a2, a3, a4⟩ := f1 hc
+  obtain ⟨b1, b2, b3, b4⟩ := f2 (by rw [a1]; exact hc)
+  exact ⟨b1.trans a1, b2.trans a2, b3.trans a3, b4.trans a4⟩
+
+theorem lt_of_get {α : Type} {l : List α} {i : Nat} {a : α} (h : l[i]? = some a) : i < l.length := by
+  rcases Nat.lt_or_ge i l.length with h' | h'
+  · exact h'
+  · rw [List.getElem?_eq_none h'] at h; simp at h
+
+theorem newOk_mono {a b : World} (h1 : ∀ (i : Nat) (e : Exec), a.execs[i]? = some e → ∃ e', b.execs[i]? = some e' ∧ Frozen e e')
+    {p : Nat} (h : NewOk b p) : NewOk a p := by
+  intro e he
+  obtain ⟨e', he', f⟩ := h1 p e he
+  have := h e' he'
+  cases hc : isCompleted e.state with
+  | false => rfl
+  | true => rw [(f.2.2.2.2 hc).1] at this; rw [this] at hc; exact absurd hc (by simp)
 
 theorem Good.refl (w : World) : Good w w :=
   ⟨fun _ e h => ⟨e, h, Frozen.refl e⟩, fun _ tk h => ⟨tk, h, rfl, rfl⟩,
-   fun _ _ h hn => by simp [hn] at h, id⟩
+   fun _ _ h hn => by simp [hn] at h, fun _ _ h hn => by simp [hn] at h, id⟩
 
 theorem Good.trans {a b c : World} (h1 : Good a b) (h2 : Good b c) : Good a c := by
-  refine ⟨fun i e h => ?_, fun t tk h => ?_, fun t tk' h hn => ?_, fun h => h2.inv (h1.inv h)⟩
+  refine ⟨fun i e h => ?_, fun t tk h => ?_, fun t tk' h hn => ?_, fun x e'' h hn => ?_,
+          fun h => h2.inv (h1.inv h)⟩
   · obtain ⟨e', he', f1⟩ := h1.execs i e h
     obtain ⟨e'', he'', f2⟩ := h2.execs i e' he'
     exact ⟨e'', he'', f1.trans f2⟩
@@ -71,119 +83,186 @@ theorem Good.trans {a b c : World} (h1 : Good a b) (h2 : Good b c) : Good a c :=
       subst this
       rw [b1]
       exact h1.fresh t tkb hb hn
+    | none => exact newOk_mono h1.execs (h2.fresh t tk' h hb)
+  · cases hb : b.execs[x]? with
+    | some eb =>
+      obtain ⟨e3, h3, f⟩ := h2.execs x eb hb
+      have : e3 = e'' := by rw [h] at h3; exact (Option.some.inj h3).symm
+      subst this
+      rcases h1.freshExec x eb hb hn with hp | ⟨t, tk, hp, htk, hok⟩
+      · exact Or.inl (by rw [f.1]; exact hp)
+      · obtain ⟨tk2, htk2, w2, _⟩ := h2.tasks t tk htk
+        exact Or.inr ⟨t, tk2, by rw [f.1]; exact hp, htk2, by rw [w2]; exact hok⟩
     | none =>
-      intro e he
-      obtain ⟨e', he', f⟩ := h1.execs _ e he
-      have := h2.fresh t tk' h hb e' he'
-      cases hc : isCompleted e.state with
-      | false => rfl
-      | true => rw [(f.2.2.2.2 hc).1] at this; rw [this] at hc; exact absurd hc (by simp)
+      rcases h2.freshExec x e'' h hb with hp | ⟨t, tk, hp, htk, hok⟩
+      · exact Or.inl hp
+      · exact Or.inr ⟨t, tk, hp, htk, newOk_mono h1.execs hok⟩
 
 theorem Good.of_same {w w' : World} (he : w'.execs = w.execs) (ht : w'.tasks = w.tasks) : Good w w' :=
   ⟨fun _ e h => ⟨e, by rw [he]; exact h, Frozen.refl e⟩, fun _ tk h => ⟨tk, by rw [ht]; exact h, rfl, rfl⟩,
-   fun _ _ h hn => by rw [ht, hn] at h; simp at h, fun h i e hi => h i e (by rw [← he]; exact hi)⟩
+   fun _ _ h hn => by rw [ht, hn] at h; simp at h, fun _ _ h hn => by rw [he, hn] at h; simp at h,
+   fun h => ⟨fun i e hi => h.1 i e (by rw [← he]; exact hi),
+             fun x e t hx hp => by rw [ht]; exact h.2.1 x e t (by rw [← he]; exact hx) hp,
+             fun t tk htk => by rw [he]; exact h.2.2.1 t tk (by rw [← ht]; exact htk),
+             fun x e t tk hx hp htk => h.2.2.2 x e t tk (by rw [← he]; exact hx) hp (by rw [← ht]; exact htk)⟩⟩
 
 theorem Good.setTask {w w' : World} {t : Nat} {tk tk' : Task} (he : w'.execs = w.execs)
     (h : w.tasks[t]? = some tk) (ht : w'.tasks = w.tasks.set t tk') (hwf : tk'.wf = tk.wf)
     (hn : tk'.name = tk.name) : Good w w' := by
+  have hlt := lt_of_get h
+  have hget : ∀ (u : Nat) (tku : Task), w'.tasks[u]? = some tku →
+      ∃ tk0, w.tasks[u]? = some tk0 ∧ tku.wf = tk0.wf := by
+    intro u tku hu
+    rw [ht, List.getElem?_set] at hu
+    by_cases htu : t = u
+    · subst htu; simp [hlt] at hu; subst hu; exact ⟨tk, h, hwf⟩
+    · simp [htu] at hu; exact ⟨tku, hu, rfl⟩
   refine ⟨fun _ e h => ⟨e, by rw [he]; exact h, Frozen.refl e⟩, fun u tku hu => ?_, fun u tku hu hnone => ?_,
-          fun h i e hi => h i e (by rw [← he]; exact hi)⟩
+          fun _ _ h hn => by rw [he, hn] at h; simp at h, fun hall => ⟨fun i e hi => hall.1 i e (by rw [← he]; exact hi), ?_, ?_, ?_⟩⟩
   · rw [ht, List.getElem?_set]
     by_cases htu : t = u
     · subst htu
-      have hlt : t < w.tasks.length := by
-        rcases Nat.lt_or_ge t w.tasks.length with h' | h'
-        · exact h'
-        · rw [List.getElem?_eq_none h'] at h; simp at h
       rw [h] at hu
       have : tku = tk := (Option.some.inj hu).symm
       subst this
       exact ⟨tk', by simp [hlt], hwf, hn⟩
     · exact ⟨tku, by simp [htu, hu], rfl, rfl⟩
-  · rw [ht, List.getElem?_set] at hu
-    by_cases htu : t = u
-    · subst htu; rw [h] at hnone; simp at hnone
-    · simp [htu, hnone] at hu
+  · obtain ⟨tk0, h0, _⟩ := hget u tku hu
+    rw [h0] at hnone; simp at hnone
+  · intro x e t' hx hp
+    rw [ht, List.length_set]
+    exact hall.2.1 x e t' (by rw [← he]; exact hx) hp
+  · intro u tku hu
+    obtain ⟨tk0, h0, hw0⟩ := hget u tku hu
+    rw [he, hw0]; exact hall.2.2.1 u tk0 h0
+  · intro x e u tku hx hp hu
+    obtain ⟨tk0, h0, hw0⟩ := hget u tku hu
+    rw [hw0]; exact hall.2.2.2 x e u tk0 (by rw [← he]; exact hx) hp h0
 
 theorem Good.addTask {w w' : World} {tk' : Task} (he : w'.execs = w.execs)
-    (ht : w'.tasks = w.tasks ++ [tk']) (hok : NewOk w tk'.wf) : Good w w' := by
-  refine ⟨fun _ e h => ⟨e, by rw [he]; exact h, Frozen.refl e⟩, fun u tku hu => ?_, fun u tku hu hnone => ?_,
-          fun h i e hi => h i e (by rw [← he]; exact hi)⟩
-  · have hlt : u < w.tasks.length := by
-      rcases Nat.lt_or_ge u w.tasks.length with h' | h'
-      · exact h'
-      · rw [List.getElem?_eq_none h'] at hu; simp at hu
-    exact ⟨tku, by rw [ht, List.getElem?_append_left hlt]; exact hu, rfl, rfl⟩
-  · have hge : w.tasks.length ≤ u := by
-      rcases Nat.lt_or_ge u w.tasks.length with h' | h'
-      · rw [List.getElem?_eq_getElem h'] at hnone; simp at hnone
-      · exact h'
-    rw [ht, List.getElem?_append_right hge] at hu
-    have : tku = tk' := by
+    (ht : w'.tasks = w.tasks ++ [tk']) (hok : NewOk w tk'.wf) (hex : tk'.wf < w.execs.length) : Good w w' := by
+  have hnew : ∀ (u : Nat) (tku : Task), w'.tasks[u]? = some tku → w.tasks[u]? = some tku ∨ tku = tk' := by
+    intro u tku hu
+    rw [ht] at hu
+    rcases Nat.lt_or_ge u w.tasks.length with h' | h'
+    · rw [List.getElem?_append_left h'] at hu; exact Or.inl hu
+    · rw [List.getElem?_append_right h'] at hu
       cases hk : u - w.tasks.length with
-      | zero => rw [hk] at hu; simpa using hu.symm
+      | zero => rw [hk] at hu; exact Or.inr (by simpa using hu.symm)
       | succ k => rw [hk] at hu; simp at hu
-    subst this
-    exact hok
+  refine ⟨fun _ e h => ⟨e, by rw [he]; exact h, Frozen.refl e⟩, fun u tku hu => ?_, fun u tku hu hnone => ?_,
+          fun _ _ h hn => by rw [he, hn] at h; simp at h, fun hall => ⟨fun i e hi => hall.1 i e (by rw [← he]; exact hi), ?_, ?_, ?_⟩⟩
+  · exact ⟨tku, by rw [ht, List.getElem?_append_left (lt_of_get hu)]; exact hu, rfl, rfl⟩
+  · rcases hnew u tku hu with h1 | h1
+    · rw [h1] at hnone; simp at hnone
+    · subst h1; exact hok
+  · intro x e t' hx hp
+    rw [ht, List.length_append]
+    have := hall.2.1 x e t' (by rw [← he]; exact hx) hp
+    omega
+  · intro u tku hu
+    rw [he]
+    rcases hnew u tku hu with h1 | h1
+    · exact hall.2.2.1 u tku h1
+    · subst h1; exact hex
+  · intro x e u tku hx hp hu
+    have hx' : w.execs[x]? = some e := by rw [← he]; exact hx
+    have hul := hall.2.1 x e u hx' hp
+    rw [ht, List.getElem?_append_left hul] at hu
+    exact hall.2.2.2 x e u tku hx' hp hu
 
 theorem Good.addExec {w w' : World} {e0 : Exec} (ht : w'.tasks = w.tasks)
-    (he : w'.execs = w.execs ++ [e0]) (hj : J e0) : Good w w' := by
-  refine ⟨fun i e h => ?_, fun _ tk h => ⟨tk, by rw [ht]; exact h, rfl, rfl⟩,
-          fun _ _ h hn => by rw [ht, hn] at h; simp at h, fun h i e hi => ?_⟩
-  · have hlt : i < w.execs.length := by
-      rcases Nat.lt_or_ge i w.execs.length with h' | h'
-      · exact h'
-      · rw [List.getElem?_eq_none h'] at h; simp at h
-    exact ⟨e, by rw [he, List.getElem?_append_left hlt]; exact h, Frozen.refl e⟩
-  · rw [he] at hi
+    (he : w'.execs = w.execs ++ [e0]) (hj : J e0)
+    (hp : e0.parent = none ∨ ∃ t tk, e0.parent = some t ∧ w.tasks[t]? = some tk ∧ NewOk w tk.wf) : Good w w' := by
+  have hnew : ∀ (i : Nat) (e : Exec), w'.execs[i]? = some e → w.execs[i]? = some e ∨ (w.execs[i]? = none ∧ e = e0) := by
+    intro i e hi
+    rw [he] at hi
     rcases Nat.lt_or_ge i w.execs.length with h' | h'
-    · rw [List.getElem?_append_left h'] at hi; exact h i e hi
+    · rw [List.getElem?_append_left h'] at hi; exact Or.inl hi
     · rw [List.getElem?_append_right h'] at hi
       cases hk : i - w.execs.length with
-      | zero => rw [hk] at hi; have : e = e0 := by simpa using hi.symm
-                subst this; exact hj
+      | zero => rw [hk] at hi; exact Or.inr ⟨List.getElem?_eq_none h', by simpa using hi.symm⟩
       | succ k => rw [hk] at hi; simp at hi
-
-theorem Good.setExec {w w' : World} {i : Nat} {e e' : Exec} (ht : w'.tasks = w.tasks)
-    (h : w.execs[i]? = some e) (he : w'.execs = w.execs.set i e') (hf : Frozen e e')
-    (hj : J e → J e') : Good w w' := by
-  have hlt : i < w.execs.length := by
-    rcases Nat.lt_or_ge i w.execs.length with h' | h'
-    · exact h'
-    · rw [List.getElem?_eq_none h'] at h; simp at h
-  refine ⟨fun k ek hk => ?_, fun _ tk h => ⟨tk, by rw [ht]; exact h, rfl, rfl⟩,
-          fun _ _ h hn => by rw [ht, hn] at h; simp at h, fun hall k ek hk => ?_⟩
-  · rw [he, List.getElem?_set]
-    by_cases hik : i = k
-    · subst hik
-      rw [h] at hk
-      have : ek = e := (Option.some.inj hk).symm
-      subst this
-      exact ⟨e', by simp [hlt], hf⟩
-    · exact ⟨ek, by simp [hik, hk], Frozen.refl ek⟩
-  · rw [he, List.getElem?_set] at hk
-    by_cases hik : i = k
-    · subst hik
-      simp [hlt] at hk
-      subst hk
-      exact hj (hall i e h)
-    · simp [hik] at hk
-      exact hall k ek hk
+  refine ⟨fun i e h => ?_, fun _ tk h => ⟨tk, by rw [ht]; exact h, rfl, rfl⟩,
+          fun _ _ h hn => by rw [ht, hn] at h; simp at h, fun x e' hx hn => ?_, fun hall => ⟨fun i e hi => ?_, ?_, ?_, ?_⟩⟩
+  · exact ⟨e, by rw [he, List.getElem?_append_left (lt_of_get h)]; exact h, Frozen.refl e⟩
+  · rcases hnew x e' hx with h1 | ⟨_, h1⟩
+    · rw [h1] at hn; simp at hn
+    · subst h1
+      rcases hp with hp | ⟨t, tk, hp, htk, hok⟩
+      · exact Or.inl hp
+      · exact Or.inr ⟨t, tk, hp, by rw [ht]; exact htk, hok⟩
+  · rcases hnew i e hi with h1 | ⟨_, h1⟩
+    · exact hall.1 i e h1
+    · subst h1; exact hj
+  · intro x e t hx hpar
+    rw [ht]
+    rcases hnew x e hx with h1 | ⟨_, h1⟩
+    · exact hall.2.1 x e t h1 hpar
+    · subst h1
+      rcases hp with hp | ⟨t', tk, hp, htk, _⟩
+      · rw [hp] at hpar; simp at hpar
+      · rw [hp] at hpar; cases hpar; exact lt_of_get htk
+  · intro t tk htk
+    rw [he, List.length_append]
+    have := hall.2.2.1 t tk (by rw [← ht]; exact htk)
+    omega
+  · intro x e t tk hx hpar htk
+    rw [ht] at htk
+    rcases hnew x e hx with h1 | ⟨hn, h1⟩
+    · exact hall.2.2.2 x e t tk h1 hpar htk
+    · have := hall.2.2.1 t tk htk
+      have hge : w.execs.length ≤ x := by
+        rcases Nat.lt_or_ge x w.execs.length with h' | h'
+        · rw [List.getElem?_eq_getElem h'] at hn; simp at hn
+        · exact h'
+      omega
 
 theorem Good.mapExecs {w w' : World} {f : Nat → Exec → Exec} (ht : w'.tasks = w.tasks)
     (he : w'.execs = w.execs.mapIdx f)
     (hf : ∀ (i : Nat) (e : Exec), w.execs[i]? = some e → Frozen e (f i e) ∧ (J e → J (f i e))) : Good w w' := by
-  refine ⟨fun k ek hk => ?_, fun _ tk h => ⟨tk, by rw [ht]; exact h, rfl, rfl⟩,
-          fun _ _ h hn => by rw [ht, hn] at h; simp at h, fun hall k ek hk => ?_⟩
-  · exact ⟨f k ek, by rw [he, List.getElem?_mapIdx, hk]; rfl, (hf k ek hk).1⟩
-  · rw [he, List.getElem?_mapIdx] at hk
+  have hback : ∀ (k : Nat) (ek : Exec), w'.execs[k]? = some ek → ∃ e0, w.execs[k]? = some e0 ∧ ek = f k e0 := by
+    intro k ek hk
+    rw [he, List.getElem?_mapIdx] at hk
     cases hw : w.execs[k]? with
     | none => rw [hw] at hk; simp at hk
-    | some e0 =>
-      rw [hw] at hk
-      have : ek = f k e0 := by simpa using hk.symm
-      subst this
-      exact (hf k e0 hw).2 (hall k e0 hw)
+    | some e0 => rw [hw] at hk; exact ⟨e0, rfl, by simpa using hk.symm⟩
+  refine ⟨fun k ek hk => ?_, fun _ tk h => ⟨tk, by rw [ht]; exact h, rfl, rfl⟩,
+          fun _ _ h hn => by rw [ht, hn] at h; simp at h, fun x e' hx hn => ?_, fun hall => ⟨fun k ek hk => ?_, ?_, ?_, ?_⟩⟩
+  · exact ⟨f k ek, by rw [he, List.getElem?_mapIdx, hk]; rfl, (hf k ek hk).1⟩
+  · obtain ⟨e0, h0, _⟩ := hback x e' hx
+    rw [h0] at hn; simp at hn
+  · obtain ⟨e0, h0, rfl⟩ := hback k ek hk
+    exact (hf k e0 h0).2 (hall.1 k e0 h0)
+  · intro x e t hx hpar
+    obtain ⟨e0, h0, rfl⟩ := hback x e hx
+    rw [ht]
+    exact hall.2.1 x e0 t h0 (by rw [← (hf x e0 h0).1.1]; exact hpar)
+  · intro t tk htk
+    rw [he, List.length_mapIdx]
+    exact hall.2.2.1 t tk (by rw [← ht]; exact htk)
+  · intro x e t tk hx hpar htk
+    obtain ⟨e0, h0, rfl⟩ := hback x e hx
+    exact hall.2.2.2 x e0 t tk h0 (by rw [← (hf x e0 h0).1.1]; exact hpar) (by rw [← ht]; exact htk)
+
+theorem Good.setExec {w w' : World} {i : Nat} {e e' : Exec} (ht : w'.tasks = w.tasks)
+    (h : w.execs[i]? = some e) (he : w'.execs = w.execs.set i e') (hf : Frozen e e')
+    (hj : J e → J e') : Good w w' := by
+  refine Good.mapExecs (f := fun k ek => if k = i then e' else ek) ht ?_ ?_
+  · rw [he]
+    apply List.ext_getElem?
+    intro k
+    rw [List.getElem?_set, List.getElem?_mapIdx]
+    by_cases hik : i = k
+    · subst hik; simp [lt_of_get h, h]
+    · have : ¬ k = i := fun h' => hik h'.symm
+      cases hk : w.execs[k]? <;> simp [hik, this]
+  · intro k ek hk
+    by_cases hki : k = i
+    · subst hki
+      rw [h] at hk; cases hk
+      simp only [if_true]; exact ⟨hf, hj⟩
+    · simp only [hki, if_false]; exact ⟨Frozen.refl ek, id⟩
 
 /-! ## the transactions -/
 
@@ -198,7 +277,10 @@ theorem good_dispatchOne (w : World) (wf : Nat) (n : String) : Good w (dispatchO
     split
     · exact Good.refl w
     · rename_i hc
-      exact Good.addTask (tk' := newTask wf n) rfl rfl (newOk_of_running he (by simpa using hc))
+      split
+      · exact Good.setExec (e := e) rfl he rfl
+          ⟨rfl, rfl, rfl, Nat.le_refl _, fun _ => ⟨rfl, rfl, rfl, rfl⟩⟩ id
+      · exact Good.addTask (tk' := newTask wf n) rfl rfl (newOk_of_running he (by simpa using hc)) (lt_of_get he)
   · exact Good.refl w
 
 theorem good_foldl {α : Type} (f : World → α → World) (hf : ∀ w a, Good w (f w a)) (l : List α) (w : World) :
@@ -210,26 +292,67 @@ theorem good_foldl {α : Type} (f : World → α → World) (hf : ∀ w a, Good 
 theorem good_dispatch (w : World) (wf : Nat) (names : List String) : Good w (dispatch w wf names) :=
   good_foldl _ (fun w n => good_dispatchOne w wf n) _ w
 
+/-- the states of the existing executions are untouched -/
+def SameStates (w w' : World) : Prop :=
+  ∀ (i : Nat) (e : Exec), w.execs[i]? = some e → ∃ e', w'.execs[i]? = some e' ∧ e'.state = e.state
+
+theorem SameStates.refl (w : World) : SameStates w w := fun _ e h => ⟨e, h, rfl⟩
+
+theorem SameStates.trans {a b c : World} (h1 : SameStates a b) (h2 : SameStates b c) : SameStates a c := by
+  intro i e h
+  obtain ⟨e1, he1, s1⟩ := h1 i e h
+  obtain ⟨e2, he2, s2⟩ := h2 i e1 he1
+  exact ⟨e2, he2, s2.trans s1⟩
+
+theorem dispatchOne_prefix (w : World) (wf : Nat) (n : String) :
+    SameStates w (dispatchOne w wf n) ∧ ∃ l, (dispatchOne w wf n).tasks = w.tasks ++ l := by
+  unfold dispatchOne
+  split
+  · rename_i e he
+    split
+    · exact ⟨SameStates.refl w, [], by simp⟩
+    · split
+      · refine ⟨fun i ei hi => ?_, [], by simp⟩
+        simp only [List.getElem?_set]
+        by_cases h : wf = i
+        · subst h; rw [he] at hi; cases hi
+          exact ⟨{ e with backlog := e.backlog ++ [n] }, by simp [lt_of_get he], rfl⟩
+        · exact ⟨ei, by simp [h, hi], rfl⟩
+      · exact ⟨SameStates.refl _, [newTask wf n], rfl⟩
+  · exact ⟨SameStates.refl w, [], by simp⟩
+
+theorem dispatch_prefix (w : World) (wf : Nat) (names : List String) :
+    SameStates w (dispatch w wf names) ∧ ∃ l, (dispatch w wf names).tasks = w.tasks ++ l := by
+  unfold dispatch
+  generalize names.reverse = ns
+  induction ns generalizing w with
+  | nil => exact ⟨SameStates.refl w, [], by simp⟩
+  | cons n ns ih =>
+    simp only [List.foldl_cons]
+    obtain ⟨he, l, hl⟩ := ih (dispatchOne w wf n)
+    obtain ⟨he1, l1, hl1⟩ := dispatchOne_prefix w wf n
+    exact ⟨he1.trans he, l1 ++ l, by rw [hl, hl1, List.append_assoc]⟩
+
+theorem dispatch_tasks_prefix (w : World) (wf : Nat) (names : List String) :
+    ∃ l, (dispatch w wf names).tasks = w.tasks ++ l := (dispatch_prefix w wf names).2
+
+theorem dispatch_get (w : World) (wf : Nat) (names : List String) (t : Nat) (tk : Task)
+    (h : w.tasks[t]? = some tk) : (dispatch w wf names).tasks[t]? = some tk := by
+  obtain ⟨l, hl⟩ := dispatch_tasks_prefix w wf names
+  rw [hl, List.getElem?_append_left (lt_of_get h)]; exact h
+
 /-- the shape of the row `finish` writes -/
 theorem good_finish (w : World) (i : Nat) (e : Exec) (s : St) (info : Info) (out : Out)
     (h : w.execs[i]? = some e) (hs : isCompleted s = true)
-    (hpre : isCompleted e.state = false ∨ (e.state = .SUCCESS ∧ s = .SUCCESS))
-    (hout : s = .SUCCESS → out = .data) : Good w (finish w i e s info out) := by
+    (hpre : isCompleted e.state = false) : Good w (finish w i e s info out) := by
   refine Good.setExec (e := e) rfl h rfl ?_ ?_
   · refine ⟨rfl, rfl, rfl, by simp only; split <;> omega, fun hc => ?_⟩
-    rcases hpre with hpre | ⟨h1, h2⟩
-    · rw [hpre] at hc; exact absurd hc (by simp)
-    · subst h2
-      exact ⟨h1.symm, Or.inr ⟨h1, hout rfl⟩, fun hne => absurd h1 hne⟩
+    rw [hpre] at hc; exact absurd hc (by simp)
   · intro hj
-    obtain ⟨j1, j2, j3, j4⟩ := hj
-    refine ⟨fun hc => ?_, fun hs2 => ?_, fun hs2 => ?_, fun _ => rfl⟩
+    obtain ⟨j1, _⟩ := hj
+    refine ⟨fun hc => ?_, fun _ => ?_, Or.inr (Or.inr hs)⟩
     · simp only at hc; rw [hs] at hc; exact absurd hc (by simp)
-    · simp only at hs2 ⊢
-      rcases hpre with hpre | ⟨_, h2⟩
-      · rw [j1 hpre]
-      · subst h2; rcases hs2 with hs2 | hs2 <;> exact absurd hs2 (by decide)
-    · exact ⟨hout hs2, fun hp => by simp only [hp, if_true]; omega⟩
+    · simp only; rw [j1 hpre]
 
 theorem good_checkAndComplete (w : World) (i : Nat) : Good w (checkAndComplete w i) := by
   unfold checkAndComplete
@@ -245,43 +368,26 @@ theorem good_checkAndComplete (w : World) (i : Nat) : Good w (checkAndComplete w
       split
       · exact Good.refl w
       · split
-        · exact good_finish w i e _ _ _ he (by decide) (Or.inl hc) (fun h => nomatch h)
+        · exact good_finish w i e _ _ _ he (by decide) hc
         · split
-          · exact good_finish w i e _ _ _ he (by decide) (Or.inl hc) (fun _ => rfl)
-          · exact good_finish w i e _ _ _ he (by decide) (Or.inl hc) (fun h => nomatch h)
+          · exact good_finish w i e _ _ _ he (by decide) hc
+          · exact good_finish w i e _ _ _ he (by decide) hc
 
-theorem completed_valid_success (s : St) (hc : isCompleted s = true)
-    (hv : (isValidTransition s .SUCCESS == some true) = true) : s = .SUCCESS := by
-  cases s <;> first | rfl | (exfalso; revert hc hv; decide)
-
-theorem good_stopOne (w w' : World) (i : Nat) (s : St) (msg : String) (h : stopOne w i s msg = some w') :
+theorem good_stopOne (w w' : World) (i : Nat) (s : St) (msg : Info) (h : stopOne w i s msg = some w') :
     Good w w' := by
   unfold stopOne at h
   split at h
   · simp at h
   · rename_i e he
     split at h
-    · split at h
-      · rename_i hv
-        cases h
-        cases hc : isCompleted e.state with
-        | false => exact good_finish w i e _ _ _ he (by decide) (Or.inl hc) (fun _ => rfl)
-        | true => exact good_finish w i e _ _ _ he (by decide)
-                    (Or.inr ⟨completed_valid_success _ hc hv, rfl⟩) (fun _ => rfl)
-      · simp at h
-    · split at h
-      · cases h; exact Good.refl w
-      · rename_i hc
-        split at h
-        · cases h; exact good_finish w i e _ _ _ he (by decide) (Or.inl (by simpa using hc)) (fun h => nomatch h)
-        · simp at h
-    · split at h
-      · cases h; exact Good.refl w
-      · rename_i hc
-        split at h
-        · cases h; exact good_finish w i e _ _ _ he (by decide) (Or.inl (by simpa using hc)) (fun h => nomatch h)
-        · simp at h
-    · cases h; exact Good.refl w
+    all_goals first
+      | (cases h; exact Good.refl w)
+      | (split at h
+         · cases h; exact Good.refl w
+         · rename_i hc
+           split at h
+           · cases h; exact good_finish w i e _ _ _ he (by decide) (by simpa using hc)
+           · simp at h)
 
 theorem good_cancelTx (w : World) (a : Nat) (msg : String) : Good w (cancelTx w a msg) := by
   refine Good.mapExecs (f := fun x e => if hit w a x e then cancelled msg e else e) rfl rfl ?_
@@ -292,31 +398,61 @@ theorem good_cancelTx (w : World) (a : Nat) (msg : String) : Good w (cancelTx w 
     simp only [hh, if_true]
     refine ⟨⟨rfl, rfl, rfl, by simp only [cancelled]; split <;> omega, fun hc' => ?_⟩, fun hj => ?_⟩
     · rw [hc] at hc'; exact absurd hc' (by simp)
-    · obtain ⟨j1, _, _, _⟩ := hj
-      refine ⟨fun h => ?_, fun _ => ?_, fun h => ?_, fun _ => rfl⟩
+    · obtain ⟨j1, _⟩ := hj
+      refine ⟨fun h => ?_, fun _ => ?_, Or.inr (Or.inr (by simp [cancelled]; decide))⟩
       · simp [cancelled] at h; exact absurd h (by decide)
       · show (if e.parent.isSome then e.sent + 1 else e.sent) = if e.parent.isSome then 1 else 0
         rw [j1 hc]
-      · simp [cancelled] at h
   · simp only [hh]
     exact ⟨Frozen.refl e, id⟩
 
-theorem good_startWf (c : Cfg) (w : World) (d : Nat) (parent : Option Nat) (index : Nat) (check : Bool) :
+theorem good_startWf (c : Cfg) (w : World) (d : Nat) (parent : Option Nat) (index : Nat) (check : Bool)
+    (hp : parent = none ∨ ∃ t tk, parent = some t ∧ w.tasks[t]? = some tk ∧ NewOk w tk.wf) :
     Good w (startWf c w d parent index check) := by
   unfold startWf
   have h1 : Good w { w with execs := w.execs ++ [newExec d parent index] } :=
-    Good.addExec rfl rfl ⟨fun _ => rfl, fun h => by simp [newExec] at h,
-      fun h => by simp [newExec] at h, fun h => by simp [newExec, isCompleted, Gen.States.completedStates] at h⟩
+    Good.addExec rfl rfl ⟨fun _ => rfl, fun h => by simp [newExec, isCompleted, Gen.States.completedStates] at h,
+      Or.inl rfl⟩ hp
   simp only
   split
   · exact (h1.trans (good_dispatch _ _ _)).trans (good_checkAndComplete _ _)
   · exact h1.trans (good_dispatch _ _ _)
 
-theorem good_startSub (c : Cfg) (w : World) (t d idx : Nat) : Good w (startSub c w t d idx) := by
+theorem good_startSub (c : Cfg) (w : World) (t d idx : Nat) (tk : Task) (htk : w.tasks[t]? = some tk)
+    (hok : NewOk w tk.wf) : Good w (startSub c w t d idx) := by
   unfold startSub
   split
   · exact Good.of_same rfl rfl
-  · exact good_startWf c w d _ _ _
+  · exact good_startWf c w d _ _ _ (Or.inr ⟨t, tk, rfl, htk, hok⟩)
+
+theorem startSub_prefix (c : Cfg) (w : World) (t d idx : Nat) :
+    SameStates w (startSub c w t d idx) ∧ ∃ l, (startSub c w t d idx).tasks = w.tasks ++ l := by
+  unfold startSub
+  split
+  · exact ⟨SameStates.refl _, [], by simp⟩
+  · unfold startWf
+    simp only [Bool.false_eq_true, if_false]
+    obtain ⟨he, l, hl⟩ := dispatch_prefix { w with execs := w.execs ++ [newExec d (some t) idx] } w.execs.length
+      (startTasks (defOf c d))
+    refine ⟨SameStates.trans (fun i e hi => ⟨e, ?_, rfl⟩) he, l, hl⟩
+    show (w.execs ++ [newExec d (some t) idx])[i]? = some e
+    rw [List.getElem?_append_left (lt_of_get hi)]; exact hi
+
+theorem good_startSubs (c : Cfg) (t d p : Nat) (idxs : List Nat) :
+    ∀ (w : World), (∃ tk, w.tasks[t]? = some tk ∧ tk.wf = p) →
+      (∃ e, w.execs[p]? = some e ∧ isCompleted e.state = false) →
+      Good w (idxs.foldl (fun w i => startSub c w t d i) w) := by
+  induction idxs with
+  | nil => intro w _ _; exact Good.refl w
+  | cons i idxs ih =>
+    intro w ⟨tk, htk, hwf⟩ ⟨e, he, hc⟩
+    simp only [List.foldl_cons]
+    have h1 : Good w (startSub c w t d i) :=
+      good_startSub c w t d i tk htk (by rw [hwf]; exact newOk_of_running he hc)
+    obtain ⟨hss, lt, hlt⟩ := startSub_prefix c w t d i
+    obtain ⟨e', he', hs'⟩ := hss _ e he
+    refine h1.trans (ih _ ⟨tk, ?_, hwf⟩ ⟨e', he', by rw [hs']; exact hc⟩)
+    rw [hlt, List.getElem?_append_left (lt_of_get htk)]; exact htk
 
 theorem good_completeTask (c : Cfg) (w : World) (t : Nat) (s : St) : Good w (completeTask c w t s) := by
   unfold completeTask
@@ -340,12 +476,21 @@ theorem good_wiSchedule (c : Cfg) (w : World) (t d count : Nat) (cap : Option Na
   simp only
   split
   · exact good_completeTask c w t _
-  · have h1 := good_foldl (fun w i => startSub c w t d i) (fun w i => good_startSub c w t d i)
-      (wiNextIndexes w t count cap) w
-    split
-    · rename_i tk htk
-      exact h1.trans (Good.setTask rfl htk rfl rfl rfl)
-    · exact h1
+  · split
+    · exact Good.refl w
+    · rename_i tk0 htk0
+      split
+      · exact Good.refl w
+      · rename_i e he
+        split
+        · exact good_completeTask c w t _
+        · rename_i hc
+          have h1 := good_startSubs c t d tk0.wf (wiNextIndexes w t count cap) w ⟨tk0, htk0, rfl⟩
+            ⟨e, he, by simpa using hc⟩
+          split
+          · rename_i tk htk
+            exact h1.trans (Good.setTask rfl htk rfl rfl rfl)
+          · exact h1
 
 theorem good_runTask (c : Cfg) (w : World) (t : Nat) : Good w (runTask c w t) := by
   unfold runTask
@@ -363,7 +508,13 @@ theorem good_runTask (c : Cfg) (w : World) (t : Nat) : Good w (runTask c w t) :=
         split
         · exact h1
         · exact h1.trans (Good.of_same rfl rfl)
-        · exact h1.trans (good_startSub c _ t _ 0)
+        · split
+          · exact h1.trans (good_completeTask c _ t _)
+          · rename_i hc
+            refine h1.trans (good_startSub c _ t _ 0 { tk with state := .RUNNING }
+              (List.getElem?_set_self (lt_of_get htk)) ?_)
+            exact newOk_of_running (w := { w with tasks := w.tasks.set t { tk with state := .RUNNING } }) he
+              (by simpa using hc)
         · refine Good.trans ?_ (good_wiSchedule c _ t _ _ _)
           exact Good.setTask rfl htk rfl rfl rfl
 
@@ -387,13 +538,16 @@ theorem good_wiOnComplete (c : Cfg) (w : World) (t : Nat) : Good w (wiOnComplete
         · exact Good.refl w
       · exact Good.refl w
 
+theorem frozen_got (e : Exec) : Frozen e { e with got := e.got + 1 } :=
+  ⟨rfl, rfl, rfl, Nat.le_refl _, fun _ => ⟨rfl, rfl, rfl, rfl⟩⟩
+
 theorem good_childResult (c : Cfg) (w : World) (x : Nat) : Good w (childResult c w x) := by
   unfold childResult
   split
   · exact Good.refl w
   · rename_i e he
     have h1 : Good w { w with execs := w.execs.set x { e with got := e.got + 1 } } :=
-      Good.setExec (e := e) rfl he rfl ⟨rfl, rfl, rfl, Nat.le_refl _, fun _ => ⟨rfl, Or.inl rfl, fun _ => ⟨rfl, rfl⟩⟩⟩ id
+      Good.setExec (e := e) rfl he rfl (frozen_got e) id
     simp only
     split
     · exact h1
@@ -405,18 +559,279 @@ theorem good_childResult (c : Cfg) (w : World) (x : Nat) : Good w (childResult c
           · exact h1.trans (Good.of_same rfl rfl)
           · exact h1.trans (good_completeTask c _ _ _)
 
+
+theorem Good.mapTasks {w w' : World} {g : Task → Task} (he : w'.execs = w.execs)
+    (ht : w'.tasks = w.tasks.map g) (hg : ∀ tk, (g tk).wf = tk.wf ∧ (g tk).name = tk.name) : Good w w' := by
+  have hback : ∀ (u : Nat) (tku : Task), w'.tasks[u]? = some tku → ∃ tk0, w.tasks[u]? = some tk0 ∧ tku = g tk0 := by
+    intro u tku hu
+    rw [ht, List.getElem?_map] at hu
+    cases hw : w.tasks[u]? with
+    | none => rw [hw] at hu; simp at hu
+    | some tk0 => rw [hw] at hu; exact ⟨tk0, rfl, by simpa using hu.symm⟩
+  refine ⟨fun _ e h => ⟨e, by rw [he]; exact h, Frozen.refl e⟩, fun u tku hu => ?_, fun u tku hu hnone => ?_,
+          fun _ _ h hn => by rw [he, hn] at h; simp at h,
+          fun hall => ⟨fun i e hi => hall.1 i e (by rw [← he]; exact hi), ?_, ?_, ?_⟩⟩
+  · exact ⟨g tku, by rw [ht, List.getElem?_map, hu]; rfl, (hg tku).1, (hg tku).2⟩
+  · obtain ⟨tk0, h0, _⟩ := hback u tku hu
+    rw [h0] at hnone; simp at hnone
+  · intro x e t' hx hp
+    rw [ht, List.length_map]
+    exact hall.2.1 x e t' (by rw [← he]; exact hx) hp
+  · intro u tku hu
+    obtain ⟨tk0, h0, rfl⟩ := hback u tku hu
+    rw [he, (hg tk0).1]; exact hall.2.2.1 u tk0 h0
+  · intro x e u tku hx hp hu
+    obtain ⟨tk0, h0, rfl⟩ := hback u tku hu
+    rw [(hg tk0).1]; exact hall.2.2.2 x e u tk0 (by rw [← he]; exact hx) hp h0
+
+theorem good_resetKids (w : World) (t : Nat) : Good w (resetKids w t) := by
+  refine Good.mapExecs (f := fun _ e => if e.parent == some t && e.accepted && (e.state == .ERROR || e.state == .CANCELLED)
+      then { e with accepted := false } else e) rfl rfl ?_
+  intro i e _
+  split
+  · exact ⟨⟨rfl, rfl, rfl, Nat.le_refl _, fun _ => ⟨rfl, rfl, rfl, rfl⟩⟩, id⟩
+  · exact ⟨Frozen.refl e, id⟩
+
+theorem good_resumeSelf (c : Cfg) (w : World) (x : Nat) : Good w (resumeSelf c w x) := by
+  unfold resumeSelf
+  split
+  · exact Good.refl w
+  · rename_i e he
+    have h1 : Good w { w with tasks := w.tasks.map fun tk =>
+        if tk.wf == x && isCompleted tk.state && !tk.processed then { tk with processed := true } else tk } :=
+      Good.mapTasks rfl rfl (fun tk => by split <;> exact ⟨rfl, rfl⟩)
+    simp only
+    split
+    · exact h1.trans (good_checkAndComplete _ _)
+    · refine (h1.trans ?_).trans (good_dispatch _ _ _)
+      refine Good.trans ?_ (Good.trans (good_dispatch _ _ _) (Good.of_same rfl rfl))
+      exact Good.setExec (e := e) rfl he rfl ⟨rfl, rfl, rfl, Nat.le_refl _, fun _ => ⟨rfl, rfl, rfl, rfl⟩⟩ id
+
+theorem resetKids_state (w : World) (t i : Nat) (e' : Exec) (h : (resetKids w t).execs[i]? = some e') :
+    ∃ e, w.execs[i]? = some e ∧ e'.state = e.state := by
+  simp only [resetKids, List.getElem?_mapIdx] at h
+  cases hw : w.execs[i]? with
+  | none => rw [hw] at h; simp at h
+  | some e =>
+    rw [hw] at h
+    simp only [Option.map_some, Option.some.injEq] at h
+    refine ⟨e, rfl, ?_⟩
+    rw [← h]; split <;> rfl
+
+theorem good_runExisting (c : Cfg) (w : World) (t : Nat) : Good w (runExisting c w t) := by
+  unfold runExisting
+  split
+  · exact Good.refl w
+  · rename_i tk htk
+    split
+    · exact Good.refl w
+    · split
+      · exact Good.refl w
+      · split
+        · exact Good.refl w
+        · rename_i e he
+          have h0 := good_resetKids w t
+          have htk0 : (resetKids w t).tasks[t]? = some tk := htk
+          have hok : ∀ (w1 : World), w1.execs = (resetKids w t).execs → isCompleted e.state = false →
+              NewOk w1 tk.wf := by
+            intro w1 h1 hc e' he'
+            rw [h1] at he'
+            obtain ⟨e0, h0', hs⟩ := resetKids_state w t _ e' he'
+            rw [he] at h0'; cases h0'; rw [hs]; exact hc
+          have h1 : ∀ tk' : Task, tk'.wf = tk.wf → tk'.name = tk.name →
+              Good w { execs := (resetKids w t).execs, tasks := (resetKids w t).tasks.set t tk',
+                       pending := (resetKids w t).pending } :=
+            fun tk' a b => h0.trans (Good.setTask rfl htk0 rfl a b)
+          simp only
+          split
+          · exact h1 _ rfl rfl
+          · have h2 := h1 { tk with state := .RUNNING, processed := false } rfl rfl
+            exact h2.trans (Good.of_same rfl rfl)
+          · split
+            · refine Good.trans ?_ (good_completeTask c _ t _)
+              exact h1 _ rfl rfl
+            · rename_i hc
+              refine Good.trans ?_ (good_startSub c _ t _ 0 _
+                (List.getElem?_set_self (lt_of_get htk0)) (hok _ rfl (by simpa using hc)))
+              exact h1 _ rfl rfl
+          · refine Good.trans ?_ (good_wiSchedule c _ t _ _ _)
+            exact h1 _ rfl rfl
+
+theorem good_taskUpdate (w : World) (t : Nat) (s : St) : Good w (taskUpdate w t s) := by
+  unfold taskUpdate
+  split
+  · exact Good.refl w
+  · rename_i tk htk
+    split
+    · exact Good.refl w
+    · split
+      · exact Good.refl w
+      · split
+        · exact Good.refl w
+        · exact Good.setTask rfl htk rfl rfl rfl
+
+theorem good_forceFail (w : World) (t : Nat) : Good w (forceFail w t).1 := by
+  unfold forceFail
+  split
+  · exact Good.refl w
+  · rename_i tk htk
+    have h1 : Good w { w with tasks := w.tasks.set t { tk with state := .ERROR } } :=
+      Good.setTask rfl htk rfl rfl rfl
+    simp only
+    split
+    · rename_i w2 h2
+      exact h1.trans (good_stopOne _ w2 _ _ _ h2)
+    · exact h1
+
+theorem paused_target_not_completed (s : St) (hp : isPaused s = false)
+    (hv : (isValidTransition s .PAUSED == some true) = true) : isCompleted s = false := by
+  cases s <;> first | rfl | (exfalso; revert hp hv; decide)
+
+theorem good_setState (w : World) (x : Nat) (e : Exec) (s : St) (he : w.execs[x]? = some e)
+    (hc : isCompleted e.state = false) (hs : isCompleted s = false) (h5 : s = .RUNNING ∨ s = .PAUSED) :
+    Good w (setState w x e s) := by
+  refine Good.setExec (e := e) rfl he rfl ?_ ?_
+  · exact ⟨rfl, rfl, rfl, Nat.le_refl _, fun h => by rw [hc] at h; exact absurd h (by simp)⟩
+  · intro hj
+    refine ⟨fun _ => hj.1 hc, fun h => ?_, ?_⟩
+    · simp only at h; rw [hs] at h; exact absurd h (by simp)
+    · rcases h5 with h5 | h5
+      · exact Or.inl h5
+      · exact Or.inr (Or.inl h5)
+
+/-- the loop over the sub-workflows inside pause_workflow -/
+theorem good_kids (c : Cfg) (f : Nat) (m : Mode) (hm : ∀ w x, Good w (prop c f m w x).1) (l : List Nat) :
+    ∀ (w0 : World) (acc : World × Bool), Good w0 acc.1 →
+      Good w0 (l.foldl (fun (acc : World × Bool) k =>
+        if acc.2 then acc else
+        match acc.1.execs[k]? with
+        | some ek => if isCompleted ek.state then acc else prop c f m acc.1 k
+        | none => acc) acc).1 := by
+  induction l with
+  | nil => intro w0 acc h; exact h
+  | cons k l ih =>
+    intro w0 acc h
+    simp only [List.foldl_cons]
+    apply ih
+    split
+    · exact h
+    · split
+      · split
+        · exact h
+        · exact h.trans (hm _ _)
+      · exact h
+
+theorem pausedOrIdle_not_completed (s : St) (h : isPausedOrIdle s = true) : isCompleted s = false := by
+  cases s <;> first | rfl | (exfalso; revert h; decide)
+
+/-- pause_workflow / resume_workflow / `_on_action_update`, with everything they propagate to inside the
+    transaction, satisfy `Good` -/
+theorem good_prop (c : Cfg) : ∀ (f : Nat) (m : Mode) (w : World) (x : Nat), Good w (prop c f m w x).1 := by
+  intro f
+  induction f with
+  | zero => intro m w x; exact Good.refl w
+  | succ f ih =>
+    intro m w x
+    cases m with
+    | pause =>
+      simp only [prop]
+      have hk := good_kids c f .pause (ih .pause) (kidsOf w x) w (w, false) (Good.refl w)
+      generalize (kidsOf w x).foldl _ (w, false) = r at hk ⊢
+      split
+      · exact hk
+      · split
+        · exact hk
+        · rename_i e he
+          split
+          · exact hk
+          · rename_i hnp
+            split
+            · rename_i hv
+              have hnc := paused_target_not_completed e.state (by simpa using hnp) hv
+              have h1 : Good r.1 (setState r.1 x e .PAUSED) := good_setState _ _ _ _ he hnc (by decide) (Or.inr rfl)
+              split
+              · exact hk.trans h1
+              · split
+                · exact hk.trans (h1.trans (Good.of_same rfl rfl))
+                · exact hk.trans (h1.trans (ih .update _ x))
+            · exact hk
+    | resume =>
+      simp only [prop]
+      split
+      · exact Good.refl w
+      · split
+        · exact Good.refl w
+        · have hk := good_kids c f .resume (ih .resume) (kidsOf w x) w (w, false) (Good.refl w)
+          generalize (kidsOf w x).foldl _ (w, false) = r at hk ⊢
+          split
+          · exact hk
+          · split
+            · exact hk
+            · rename_i e he
+              split
+              · exact hk
+              · rename_i hpi
+                split
+                · have hnc := pausedOrIdle_not_completed e.state (by simpa using hpi)
+                  have h1 : Good r.1 (resumeSelf c (setState r.1 x e .RUNNING) x) :=
+                    (good_setState _ _ _ _ he hnc (by decide) (Or.inl rfl)).trans (good_resumeSelf c _ x)
+                  split
+                  · exact hk.trans h1
+                  · split
+                    · exact hk.trans (h1.trans (Good.of_same rfl rfl))
+                    · exact hk.trans (h1.trans (ih .update _ x))
+                · exact hk
+    | update =>
+      simp only [prop]
+      split
+      · exact Good.refl w
+      · rename_i e he
+        split
+        · exact Good.refl w
+        · rename_i t ht
+          split
+          · exact Good.refl w
+          · rename_i tk htk
+            have h1 := good_taskUpdate w t e.state
+            split
+            · split
+              · exact (h1.trans (ih .pause _ _)).trans (good_forceFail _ _)
+              · exact h1.trans (ih .pause _ _)
+            · split
+              · split
+                · exact h1
+                · split
+                  · exact (h1.trans (ih .resume _ _)).trans (good_forceFail _ _)
+                  · exact h1.trans (ih .resume _ _)
+              · exact h1
+
 theorem good_step (c : Cfg) (w : World) (ev : Event) : Good w (step c w ev) := by
   cases ev with
-  | startRoot d => exact good_startWf c w d none 0 true
+  | startRoot d => exact good_startWf c w d none 0 true (Or.inl rfl)
   | stop a s msg =>
     simp only [step]
     split
     · split
       · exact good_cancelTx w a msg
       · exact Good.refl w
-    · cases h : stopOne w a s msg with
+    · cases h : stopOne w a s (.op msg) with
       | none => exact Good.refl w
-      | some w' => exact good_stopOne w w' a s msg h
+      | some w' => exact good_stopOne w w' a s _ h
+  | lose it =>
+    simp only [step]
+    split
+    · exact Good.refl w
+    · exact Good.of_same rfl rfl
+  | pause a =>
+    simp only [step]
+    split
+    · exact Good.of_same rfl rfl
+    · exact good_prop c _ .pause w a
+  | resume a =>
+    simp only [step]
+    split
+    · exact Good.of_same rfl rfl
+    · exact good_prop c _ .resume w a
   | execute t ok =>
     simp only [step]
     split
@@ -429,8 +844,12 @@ theorem good_step (c : Cfg) (w : World) (ev : Event) : Good w (step c w ev) := b
     · have h0 : Good w { w with pending := removeFirst w.pending it } := Good.of_same rfl rfl
       refine h0.trans ?_
       cases it with
-      | postStartTask t => exact Good.of_same rfl rfl
-      | rpcStartTask t => exact good_runTask c _ t
+      | postStartTask t f => exact Good.of_same rfl rfl
+      | rpcStartTask t f =>
+        simp only
+        split
+        · exact good_runTask c _ t
+        · exact good_runExisting c _ t
       | postRunAction t => exact Good.of_same rfl rfl
       | runAction t => exact Good.refl _
       | rpcResult t ok => exact good_completeTask c _ t _
@@ -439,9 +858,14 @@ theorem good_step (c : Cfg) (w : World) (ev : Event) : Good w (step c w ev) := b
       | rpcStartSub t i =>
         simp only
         split
-        · split
-          · split
-            · exact good_startWf c _ _ _ _ _
+        · rename_i tk htk
+          split
+          · rename_i e he
+            split
+            · split
+              · exact good_completeTask c _ t _
+              · rename_i hc
+                exact good_startWf c _ _ _ _ _ (Or.inr ⟨t, tk, rfl, htk, newOk_of_running he (by simpa using hc)⟩)
             · exact Good.refl _
           · exact Good.refl _
         · exact Good.refl _
@@ -454,47 +878,14 @@ theorem good_step (c : Cfg) (w : World) (ev : Event) : Good w (step c w ev) := b
           · exact good_wiOnComplete c _ _
           · exact Good.refl _
         · exact Good.refl _
-
-
-/-! ## the parent task of a reporting child -/
-
-theorem dispatch_tasks_prefix (w : World) (wf : Nat) (names : List String) :
-    ∃ l, (dispatch w wf names).tasks = w.tasks ++ l := by
-  unfold dispatch
-  generalize names.reverse = ns
-  induction ns generalizing w with
-  | nil => exact ⟨[], by simp⟩
-  | cons n ns ih =>
-    simp only [List.foldl_cons]
-    obtain ⟨l, hl⟩ := ih (dispatchOne w wf n)
-    have h1 : ∃ l1, (dispatchOne w wf n).tasks = w.tasks ++ l1 := by
-      unfold dispatchOne
-      split
-      · split
-        · exact ⟨[], by simp⟩
-        · exact ⟨[newTask wf n], rfl⟩
-      · exact ⟨[], by simp⟩
-    obtain ⟨l1, hl1⟩ := h1
-    exact ⟨l1 ++ l, by rw [hl, hl1, List.append_assoc]⟩
-
-theorem dispatch_get (w : World) (wf : Nat) (names : List String) (t : Nat) (tk : Task)
-    (h : w.tasks[t]? = some tk) : (dispatch w wf names).tasks[t]? = some tk := by
-  obtain ⟨l, hl⟩ := dispatch_tasks_prefix w wf names
-  have hlt : t < w.tasks.length := by
-    rcases Nat.lt_or_ge t w.tasks.length with h' | h'
-    · exact h'
-    · rw [List.getElem?_eq_none h'] at h; simp at h
-  rw [hl, List.getElem?_append_left hlt]; exact h
+      | jobChildUpdate x => exact good_prop c _ .update _ x
 
 /-- `Task.complete(s)` on a task that is not completed writes `s` (and runs the completion logic once) -/
 theorem completeTask_sets_state (c : Cfg) (w : World) (t : Nat) (s : St) (tk : Task) (e : Exec)
     (htk : w.tasks[t]? = some tk) (hnc : isCompleted tk.state = false) (he : w.execs[tk.wf]? = some e) :
     ∃ tk', (completeTask c w t s).tasks[t]? = some tk' ∧ tk'.state = s ∧ tk'.ran = tk.ran + 1 ∧
       tk'.wf = tk.wf ∧ tk'.name = tk.name := by
-  have hlt : t < w.tasks.length := by
-    rcases Nat.lt_or_ge t w.tasks.length with h' | h'
-    · exact h'
-    · rw [List.getElem?_eq_none h'] at htk; simp at htk
+  have hlt := lt_of_get htk
   unfold completeTask
   rw [htk]
   simp only [hnc]
@@ -509,10 +900,146 @@ theorem completeTask_sets_state (c : Cfg) (w : World) (t : Nat) (s : St) (tk : T
 theorem good_run (c : Cfg) (w : World) (evs : List Event) : Good w (evs.foldl (step c) w) :=
   good_foldl (step c) (good_step c) evs w
 
-theorem allJ_init : AllJ init := by
-  intro i e h; simp [init] at h
+theorem allJ_init : AllJ init :=
+  ⟨fun i e h => by simp [init] at h, fun x e t h _ => by simp [init] at h, fun t tk h => by simp [init] at h,
+   fun x e t tk h _ _ => by simp [init] at h⟩
 
 theorem allJ_reachable (c : Cfg) (evs : List Event) : AllJ (run c evs) :=
   (good_run c init evs).inv allJ_init
+
+/-! ## the tree below an execution -/
+
+theorem parentWf_eq {w : World} {x p : Nat} (h : parentWf w x = some p) :
+    ∃ e t tk, w.execs[x]? = some e ∧ e.parent = some t ∧ w.tasks[t]? = some tk ∧ tk.wf = p := by
+  unfold parentWf at h
+  split at h
+  · rename_i e he
+    split at h
+    · rename_i t ht
+      cases htk : w.tasks[t]? with
+      | none => rw [htk] at h; simp at h
+      | some tk => rw [htk] at h; exact ⟨e, t, tk, he, ht, htk, by simpa using h⟩
+    · simp at h
+  · simp at h
+
+theorem parentWf_of {w : World} {x t : Nat} {e : Exec} {tk : Task} (he : w.execs[x]? = some e)
+    (hp : e.parent = some t) (htk : w.tasks[t]? = some tk) : parentWf w x = some tk.wf := by
+  simp [parentWf, he, hp, htk]
+
+theorem parentWf_lt {w : World} (hwf : WF w) {x p : Nat} (h : parentWf w x = some p) :
+    p < x ∧ p < w.execs.length := by
+  obtain ⟨e, t, tk, he, hp, htk, rfl⟩ := parentWf_eq h
+  exact ⟨hwf.2.2 x e t tk he hp htk, hwf.2.1 t tk htk⟩
+
+theorem below_mono (w : World) (a : Nat) : ∀ (f g x : Nat), f ≤ g → below w a f x = true → below w a g x = true := by
+  intro f
+  induction f with
+  | zero => intro g x _ h; simp [below] at h
+  | succ f ih =>
+    intro g x hfg h
+    cases g with
+    | zero => omega
+    | succ g =>
+      simp only [below, Bool.or_eq_true] at h ⊢
+      rcases h with h | h
+      · exact Or.inl h
+      · right
+        cases hp : parentWf w x with
+        | none => simp [hp] at h
+        | some p => simp only [hp] at h ⊢; exact ih g p (by omega) h
+
+/-- the fuel `execs.length` of `cancelTx` is enough: parents have smaller indices -/
+theorem below_fuel {w : World} (hwf : WF w) (a : Nat) :
+    ∀ (f x : Nat), below w a f x = true → below w a (x + 1) x = true := by
+  intro f
+  induction f with
+  | zero => intro x h; simp [below] at h
+  | succ f ih =>
+    intro x h
+    simp only [below, Bool.or_eq_true] at h ⊢
+    rcases h with h | h
+    · exact Or.inl h
+    · right
+      cases hp : parentWf w x with
+      | none => simp [hp] at h
+      | some p =>
+        simp only [hp] at h ⊢
+        exact below_mono w a (p + 1) x p (by have := (parentWf_lt hwf hp).1; omega) (ih p h)
+
+theorem below_len {w : World} (hwf : WF w) (a f x : Nat) (hx : x < w.execs.length)
+    (h : below w a f x = true) : below w a w.execs.length x = true :=
+  below_mono w a (x + 1) _ x (by omega) (below_fuel hwf a f x h)
+
+theorem parentWf_old {w w' : World} (hg : Good w w') (hwf : WF w) {x : Nat} {e : Exec}
+    (he : w.execs[x]? = some e) : parentWf w' x = parentWf w x := by
+  obtain ⟨e', he', hf⟩ := hg.execs x e he
+  cases hp : e.parent with
+  | none => simp [parentWf, he, he', hf.1, hp]
+  | some t =>
+    have hlt := hwf.1 x e t he hp
+    have htk : w.tasks[t]? = some w.tasks[t] := List.getElem?_eq_getElem hlt
+    obtain ⟨tk', htk', hw, _⟩ := hg.tasks t _ htk
+    rw [parentWf_of he' (by rw [hf.1]; exact hp) htk', parentWf_of he hp htk, hw]
+
+theorem below_old {w w' : World} (hg : Good w w') (hwf : WF w) (a : Nat) :
+    ∀ (f x : Nat), x < w.execs.length → below w' a f x = true → below w a f x = true := by
+  intro f
+  induction f with
+  | zero => intro x _ h; simp [below] at h
+  | succ f ih =>
+    intro x hx h
+    simp only [below, Bool.or_eq_true] at h ⊢
+    rcases h with h | h
+    · exact Or.inl h
+    · right
+      have he : w.execs[x]? = some w.execs[x] := List.getElem?_eq_getElem hx
+      rw [parentWf_old hg hwf he] at h
+      cases hp : parentWf w x with
+      | none => simp [hp] at h
+      | some p => simp only [hp] at h ⊢; exact ih p (parentWf_lt hwf hp).2 h
+
+/-- every execution at or below `a` is completed -/
+def BelowDone (w : World) (a : Nat) : Prop :=
+  ∀ (f x : Nat) (e : Exec), w.execs[x]? = some e → below w a f x = true → isCompleted e.state = true
+
+/-- once everything below `a` is completed, no execution is ever created below `a` -/
+theorem below_is_old {w w' : World} (hg : Good w w') (hwf : WF w) (a : Nat) (hd : BelowDone w a)
+    (ha : a < w.execs.length) : ∀ (f x : Nat), below w' a f x = true → x < w.execs.length := by
+  intro f
+  induction f with
+  | zero => intro x h; simp [below] at h
+  | succ f ih =>
+    intro x h
+    simp only [below, Bool.or_eq_true] at h
+    rcases h with h | h
+    · have : x = a := by simpa using h
+      omega
+    · cases hp : parentWf w' x with
+      | none => simp [hp] at h
+      | some p =>
+        simp only [hp] at h
+        have hpl := ih p h
+        rcases Nat.lt_or_ge x w.execs.length with hx | hx
+        · exact hx
+        · exfalso
+          obtain ⟨e', t, tk, he', hpar, htk, hw⟩ := parentWf_eq hp
+          rcases hg.freshExec x e' he' (List.getElem?_eq_none hx) with hn | ⟨t2, tk2, hpar2, htk2, hok⟩
+          · rw [hn] at hpar; simp at hpar
+          · rw [hpar] at hpar2; cases hpar2
+            rw [htk] at htk2; cases htk2
+            have hpe : w.execs[p]? = some w.execs[p] := List.getElem?_eq_getElem hpl
+            have h1 := hok _ (by rw [hw]; exact hpe)
+            have h2 := hd f p _ hpe (below_old hg hwf a f p hpl h)
+            rw [h1] at h2; exact absurd h2 (by simp)
+
+theorem belowDone_good {w w' : World} (hg : Good w w') (hwf : WF w) (a : Nat) (hd : BelowDone w a)
+    (ha : a < w.execs.length) : BelowDone w' a := by
+  intro f x e' he' hb
+  have hx := below_is_old hg hwf a hd ha f x hb
+  have he : w.execs[x]? = some w.execs[x] := List.getElem?_eq_getElem hx
+  obtain ⟨e2, he2, hf⟩ := hg.execs x _ he
+  rw [he'] at he2; cases he2
+  have hc := hd f x _ he (below_old hg hwf a f x hx hb)
+  rw [(hf.2.2.2.2 hc).1]; exact hc
 
 end Mistral.Tree
